@@ -7,7 +7,9 @@ import (
 	"os"
 	"time"
 
+	"verif/harness/codecrun"
 	"verif/harness/mqtttestrun"
+	"verif/harness/ruggedrun"
 )
 
 func main() {
@@ -25,6 +27,10 @@ func main() {
 			}
 		}
 		err = mqtttestrun.Run(os.Stdin, os.Stdout, silence)
+	case "codec":
+		err = codecrun.Run(os.Stdin, os.Stdout)
+	case "rugged":
+		err = ruggedrun.Run(os.Stdin, os.Stdout)
 	default:
 		err = fmt.Errorf("unknown engine %q", os.Args[1])
 	}
